@@ -25,10 +25,11 @@ var props = map[string]propRun{}
 
 func init() {
 	props["C20"] = propRun{
-		rule: "random name sets (1-6 names, ASCII and multi-byte) and words derived from a name by 0-3 random edits, or unrelated/empty/arbitrary bytes; a case is non-trivial and distinct per (word, name) pair",
+		rule: "random name sets (1-6 names, ASCII and multi-byte) and words derived from a name by 0-3 random edits, or unrelated/empty/arbitrary bytes; a case is non-trivial and distinct per (word, name) pair; whole-parser stage: command sets with hidden members and a word at a chosen distance around half the length of a name (or no word): error type and message against the model and against an independently stated rule",
 		run: func(c *Ctx) {
 			c.N = budget(c.Tier, 4000, 400000)
 			checkC20Fn(c)
+			checkC20Parse(c, budget(c.Tier, 1200, 60000))
 		}}
 	props["C17"] = propRun{
 		rule: "(a) wrapText on random texts (long words, newlines, tabs, multi-byte runes, arbitrary bytes) x widths -4..35 x prefixes; (b) WriteHelp of generated declarations (non-ASCII names, value names, choices, nested groups, positional arguments, selected command chains) under a real pty of width 1..300; non-trivial = more than one output line; distinct per (text,width) / case",
